@@ -664,6 +664,119 @@ def r5_whence(rep, src):
         rep.fail('C06.R5', t.site, 'tell', 'tell() does not return the position relative to the member start: %s' % bad, where=t.where)
 
 
+def r7_read_amount(rep, src):
+    """read(size) interpreted on affine values over regions of (size, room = end - cur): the amount asked from the underlying
+    file, and the advance of the cursor, equal what an in-memory file of the member's data does -- size bytes when 0 <= size <=
+    room, everything left when size is negative, None or larger than what is left, nothing (and no movement) for size 0 and at
+    or past the end."""
+    f = src.func(M + ':ArMember.read')
+    rep.saw_func(f)
+    size = f.params()[1]
+    CUR, OFF, END, S = Aff.var('cur'), Aff.var('start'), Aff.var('end'), Aff.var('size')
+    fnode = nfunc(f).node
+    room = END - CUR
+    one = Aff.const(1)
+    regions = [
+        ('at or past the member end, size n ≥ 0', S, [CUR - END, S], Aff.const(0)),
+        ('at or past the member end, size None', None, [CUR - END], Aff.const(0)),
+        ('size 0', S, [room - one, S, -S], Aff.const(0)),
+        ('1 ≤ size ≤ what is left', S, [room - one, S - one, room - S], S),
+        ('size larger than what is left', S, [room - one, S - room - one], room),
+        ('negative size', S, [room - one, -S - one], room),
+        ('size None', None, [room - one], room),
+    ]
+    default = None
+    a = f.node.args
+    if a.defaults:
+        d_ = a.defaults[-1]
+        default = d_.value if isinstance(d_, ast.Constant) else Ellipsis
+    if default is not Ellipsis and (default is None or isinstance(default, int)):
+        regions.append(('no size argument (default %r)' % (default,), None if default is None else Aff.const(default),
+                        [room - one] + ([] if default is None else []), room))
+    npaths = 0
+    for label, sval, facts0, want in regions:
+        def hook(it, call, env, facts):
+            fn = norm(call.func)
+            if fn == 'self.__fp.seek' and len(call.args) == 1:
+                outs = []
+                for v, f1 in it.ev(call.args[0], env, facts):
+                    env['#fpos'] = v
+                    outs.append((None, f1))
+                return outs
+            if fn == 'self.__fp.read' and len(call.args) <= 1:
+                outs = []
+                for v, f1 in (it.ev(call.args[0], env, facts) if call.args else [(None, facts)]):
+                    if not isinstance(v, Aff):
+                        raise AnalysisError('%s: read on the underlying file without a numeric size' % f.site)
+                    env['#asked'] = v
+                    env['#fpos'] = env.get('#fpos', CUR) + v
+                    outs.append((affinterp.Opaque('data'), f1))
+                return outs
+            if fn == 'self.__fp.tell' and not call.args:
+                return [(env.get('#fpos', CUR), facts)]
+            if fn == 'open':
+                return [(affinterp.Opaque('file'), facts)]
+            return None
+        it = affinterp.Interp(f.site, _int_consts(f.module), call_hook=hook)
+        env = {'self.__cur': CUR, 'self.__offset': OFF, 'self.__end': END, 'self.__fp': affinterp.Opaque('file'), 'self.__fname': affinterp.Opaque('name'), size: sval}
+        outs = it.run(fnode.body, env, Facts([CUR - OFF, END - OFF] + facts0))
+        npaths += len(outs)
+        bad = None
+        for o in outs:
+            if o.kind == 'raise':
+                bad = bad or 'raises %s (line %s)' % (o.value, o.line)
+                continue
+            asked = o.env.get('#asked', Aff.const(0)) if not isinstance(o.value, bytes) else Aff.const(0)
+            if isinstance(o.value, bytes) and o.value != b'':
+                bad = bad or 'returns the constant %r' % (o.value,)
+                continue
+            newcur = o.env.get('self.__cur')
+            same = lambda x, y: isinstance(x, Aff) and (x == y or (o.facts.entails(x - y) and o.facts.entails(y - x)))
+            if not same(asked, want):
+                bad = bad or 'returns %r byte(s) where an in-memory file returns %r' % (asked, want)
+            elif not same(newcur, CUR + want):
+                bad = bad or 'leaves the position at %r instead of %r' % (newcur, CUR + want)
+        if bad:
+            rep.fail('C06.R7', f.site, 'read: ' + label, 'read with %s %s' % (label, bad), where=f.where)
+        elif not outs:
+            rep.fail('C06.R7', f.site, 'read: ' + label, 'no path', where=f.where)
+        else:
+            rep.ok('C06.R7', f.site, 'read: ' + label, 'amount %r, position advanced by it (%d path(s))' % (want, len(outs)))
+    rep.analysed['paths'] += npaths
+
+
+def r8_iteration(rep, src):
+    """`for line in member`: the iterator interpreted with readline() answering a three-line member line by line yields every
+    line, in order, and stops at the first empty answer"""
+    from .. import heap as H
+    f = src.mod(M).method('ArMember', '__iter__')
+    if f is None:
+        rep.ok('C06.R8', M + ':ArMember', 'iteration', 'no __iter__: not iterable (nothing to decide)', nontrivial=False)
+        return
+    rep.saw_func(f)
+    answers = [b'one\n', b'two\n', b'three', b'', b'']
+    calls = {'n': 0}
+
+    def readline(it, args, kw):
+        calls['n'] += 1
+        return answers[min(calls['n'] - 1, len(answers) - 1)]
+    heap = H.Heap(src.mod(M), hooks={'.readline': readline, 'iter': lambda it, a, k: a[0]})
+    me = heap.alloc('ArMember', {})
+    it = H.Interp(heap)
+    try:
+        r = it.call(H.Closure(f.node, {}, me, f.cls), [])
+        got = [x for x in it.seq(r)]
+    except H.Raised as x:
+        rep.fail('C06.R8', f.site, 'iteration yields every line', 'raises %s (line %d)' % (x.exc, x.lineno), where=f.where)
+        return
+    if got == answers[:3]:
+        rep.ok('C06.R8', f.site, 'iteration yields every line', '%d lines from %d readline() calls' % (len(got), calls['n']))
+    else:
+        rep.fail('C06.R8', f.site, 'iteration yields every line', 'iterating a member of three lines yields %r: %s' % (
+            got, 'only the first line is produced (readline() is called once, not until it answers with an empty string)' if got == answers[:1] else 'not the lines of the member'),
+            where=f.where)
+
+
 def check(src, rep, tier):
     rep.explanation = ('C06: (R1) for every data-returning call on the shared file object inside ArMember all CFG paths to the call are '
                        'enumerated and 0 ≤ size ≤ end−cur is proved from the guards/assignments on the path (difference-bound entailment, '
@@ -683,3 +796,7 @@ def check(src, rep, tier):
     rep.guard('C06.R3', r3_header_table, src)
     rep.guard('C06.R4', r4_padding, src)
     rep.guard('C06.R5', r5_whence, src)
+    rep.need('C06.R8', 1)
+    rep.guard('C06.R8', r8_iteration, src)
+    rep.need('C06.R7', 7)
+    rep.guard('C06.R7', r7_read_amount, src)
